@@ -136,7 +136,7 @@ def gen_spec(rng, n_m=4, n_p=3, n_v=3, pkg="vpk", p_hidden=0.15, p_explicit=0.2,
             cands = [c for c in nodes if c["kind"] == "v" and c.get("vkind") in ("list", "dict") and c["module"] == n["module"]
                      and c["name"] not in [r[0] for r in n["refs"]]]
             if cands:
-                n["refs"].append([r2.choice(cands)["name"], "vdef"])
+                n["refs"].append([r2.choice(cands)["name"], "vdef" if r2.random() < 0.6 else "vkdef"])
     if twins:
         # two module variables with the same symbol in different modules, each read by a function of its own module,
         # both reachable from one memento function
@@ -182,9 +182,12 @@ def def_lines(spec, n):
             params.append("vd_%s=%s" % (rf[0], sym(node(spec, rf[0]))))
     if n.get("objdefault"):
         params.append("o=_CFG")
+    kwp = ["vd_%s=%s" % (rf[0], sym(node(spec, rf[0]))) for rf in n["refs"] if rf[1] == "vkdef"]       # keyword-only, default = the variable's object
     if n["kwdefault"] is not None:
+        kwp.append("kd=%d" % n["kwdefault"])
+    if kwp:
         params.append("*")
-        params.append("kd=%d" % n["kwdefault"])
+        params.extend(kwp)
     if n["kind"] == "m":
         args = ["cluster=%r" % CL]
         if n["explicit"] is not None:
@@ -231,7 +234,7 @@ def def_lines(spec, n):
             ref = sym(t)
         if form == "hdr":
             out.append("    r += kf_%s(x - 1)" % tname)
-        elif form == "vdef":
+        elif form in ("vdef", "vkdef"):
             out.append("    r += _num(vd_%s)" % tname)
         elif form == "live":
             out.append("    r += int(%s(x + 0.5))" % ref)
